@@ -277,3 +277,53 @@ def path_curvature_at_joints_sampled(c):
         c.ensures('zero-on-a-straight-joint', k == 0)
     Tin = p.t2T(1, 0.5)
     c.ensures('inside-a-segment-it-is-the-segment-curvature', abs(p.curvature(Tin) - p[1].curvature(0.5)) <= 1e-9 * (1 + abs(p[1].curvature(0.5))))
+
+
+@contract('C15', 'path.rotate', params=[{'kind': k, 'op': o, '_bounded_only': True}
+                                        for k in ('L', 'Q', 'C', 'A') for o in ('translated', 'rotated', 'scaled', 'reversed')])
+def tangent_and_curvature_transform_with_the_curve_sampled(c, kind, op):
+    """bounded stand-in for the last clause of C15: unit_tangent, normal and curvature of the
+    translated / rotated / uniformly scaled / reversed segment are those of the segment, carried
+    along (tangent turned by the rotation, flipped by a negative scale factor, negated by
+    reversal; curvature unchanged, divided by |s| under scaling).  Regular points only."""
+    import cmath
+    import math
+    import svgpathtools.path as sp
+
+    def f(z):
+        return complex(math.fmod(z.real * 12345.678, 10), math.fmod(z.imag * 12345.678, 10))
+    if kind == 'A':
+        rx, ry = 1 + abs(c.real('rx') * 3.7) % 3, 1 + abs(c.real('ry') * 3.7) % 3
+        phi = [0.0, 30.0, 77.0, -45.0, 90.0][int(abs(c.real('phi')) * 10) % 5]
+        a0 = (c.real('a0') * 100) % 360 - 180
+        d = (20 + abs(c.real('d')) * 100 % 320) * (1 if c.bool('sweep') else -1)
+        w = cmath.exp(1j * math.radians(phi))
+        ctr = f(c.cplx('ctr'))
+
+        def pt(a):
+            return ctr + w * complex(rx * math.cos(math.radians(a)), ry * math.sin(math.radians(a)))
+        c.assume(abs(pt(a0) - pt(a0 + d)) > 1e-2)
+        seg = sp.Arc(pt(a0), complex(rx, ry), phi, abs(d) > 180, d > 0, pt(a0 + d))
+    else:
+        n = {'L': 2, 'Q': 3, 'C': 4}[kind]
+        P = [f(c.cplx('p%d' % i)) for i in range(n)]
+        c.assume(all(abs(P[i] - P[i + 1]) > 0.3 for i in range(n - 1)))
+        seg = {2: sp.Line, 3: sp.QuadraticBezier, 4: sp.CubicBezier}[n](*P)
+    t = 0.05 + 0.9 * (abs(c.real('t')) % 1)
+    c.assume(abs(seg.derivative(t)) > 1e-2)                      # a regular point
+    T, N, K = seg.unit_tangent(t), seg.normal(t), seg.curvature(t)
+    if op == 'translated':
+        img, tt, turn, kscale = seg.translated(f(c.cplx('z'))), t, 1, 1
+    elif op == 'rotated':
+        degs = (c.real('degs') * 100) % 360 - 180
+        o = f(c.cplx('o'))
+        img, tt, turn, kscale = (seg.rotated(degs, o) if c.bool('origin_given') else seg.rotated(degs)), t, cmath.exp(1j * math.radians(degs)), 1
+    elif op == 'scaled':
+        s = (0.2 + abs(c.real('s') * 7.3) % 4) * (1 if c.bool('positive') or kind == 'A' else -1)
+        img, tt, turn, kscale = seg.scaled(s, origin=f(c.cplx('o'))), t, (1 if s > 0 else -1), 1 / abs(s)
+    else:
+        img, tt, turn, kscale = seg.reversed(), 1 - t, -1, 1
+    c.ensures('same-class', type(img) is type(seg))
+    c.ensures('unit_tangent-is-carried-along', abs(img.unit_tangent(tt) - turn * T) <= 1e-6)
+    c.ensures('normal-is-carried-along', abs(img.normal(tt) - turn * N) <= 1e-6)
+    c.ensures('curvature-is-carried-along', abs(img.curvature(tt) - kscale * K) <= 1e-6 * (1 + abs(K)) * max(1, kscale))
